@@ -156,6 +156,9 @@ def rule_borrow_scope(ctx, cfg, F, D):
             drops = [x for x in f.live_blocks() if f.term(x)["t"] == "drop" and f.term(x)["pl"]["l"] == guard and not f.is_cleanup(x)]
             region = f.reachable(t["to"], avoid=drops) if t["to"] >= 0 else set()
             bad = None
+            trb = Tracer(f)
+            cell = {r.key() for r in trb.roots_of_operand(t["args"][0])}
+            again = None
             for x in region:
                 tx = f.term(x)
                 if tx["t"] == "call":
@@ -163,7 +166,13 @@ def rule_borrow_scope(ctx, cfg, F, D):
                     dc = strip_generics(tx.get("callee") or "")
                     if nm.startswith(USER_PREFIX) or dc.startswith(USER_PREFIX):
                         bad = (x, nm)
-            if bad:
+                    if x != b and nm in ("std::cell::RefCell::borrow_mut", "std::cell::RefCell::borrow") and cell and \
+                            (nm.endswith("borrow_mut") or strip_generics(callee_name(t)).endswith("borrow_mut")) and {r.key() for r in trb.roots_of_operand(tx["args"][0])} == cell:
+                        again = x
+            if again is not None:
+                R.violate("%s:second-borrow-under-borrow" % strip_generics(f.path), "the same side table is borrowed again while a mutable borrow of it is still alive (a temporary that lives to the end of the statement): "
+                          "RefCell panics with 'already borrowed' on that path instead of the decode returning an error", f.path, f.loc(again), config=cfg)
+            elif bad:
                 R.violate("%s:user-code-under-borrow:%s" % (strip_generics(f.path), bad[1]), "%s runs while the side table is mutably borrowed: a nested (de)serialisation would panic on the second borrow" % bad[1],
                           f.path, f.loc(bad[0]), config=cfg)
             else:
